@@ -315,13 +315,16 @@ func (val Value) Equals(other Value) Value {
 	case ty.IsSetType():
 		s1 := val.v.(set.Set[interface{}])
 		s2 := other.v.(set.Set[interface{}])
+		ety := ty.ElementType()
 		equal := true
 
-		// Two sets are equal if all of their values are known and all values
-		// in one are also in the other.
+		// Two sets are equal if all of their values are wholly known and all
+		// values in one are also in the other. A member that is itself a
+		// collection or structure holding an unknown value is not wholly
+		// known: it may turn out equal to a member of the other set.
 		for it := s1.Iterator(); it.Next(); {
 			rv := it.Value()
-			if _, unknown := rv.(*unknownType); unknown { // "*unknownType" is the internal representation of unknown-ness
+			if !(Value{ty: ety, v: rv}).IsWhollyKnown() {
 				return unknownResult()
 			}
 			if !s2.Has(rv) {
@@ -330,7 +333,7 @@ func (val Value) Equals(other Value) Value {
 		}
 		for it := s2.Iterator(); it.Next(); {
 			rv := it.Value()
-			if _, unknown := rv.(*unknownType); unknown { // "*unknownType" is the internal representation of unknown-ness
+			if !(Value{ty: ety, v: rv}).IsWhollyKnown() {
 				return unknownResult()
 			}
 			if !s1.Has(rv) {
